@@ -98,7 +98,7 @@ def scenarios(draw):
     sc["prefix"] = src.choice(["OUT", "OUT", "OUT", "linear", "grouped", "counts", "t", "sample_1", "tsv"])
     if sc["prefix"] != "OUT":
         sc["opts"] += ["--prefix", sc["prefix"]]
-    if src.bool(0.75):
+    if src.bool(0.5):
         sc["opts"] += ["--no_model_construction"]
     if fmt:
         sc["opts"] += ["--counts_format", fmt]
@@ -115,6 +115,13 @@ def expected_group(sc, name):
         return None
     return sc["truth"].get(name, "NA" if sc["mode"] != "read_id" else name.split(sc["delim"])[-1]
                            if sc["delim"] in name else "NA")
+
+
+def multi_locus_reads(records):
+    seen = defaultdict(set)
+    for k_ in records:
+        seen[k_[0]].add(k_[1:])
+    return any(len(v) > 1 for v in seen.values())
 
 
 def evaluate(case, ctx):
@@ -251,6 +258,56 @@ def evaluate(case, ctx):
                             if abs(vals[j] - e) > 1e-5 * max(1.0, e):
                                 ctx.violation("C09:grouped-tpm-not-a-rescaling", {"feature": f, "group": g,
                                                                                   "tpm": vals[j], "expected": e}, case)
+        # transcript models: the grouped table partitions the ungrouped one, matrix and linear agree, and a read that
+        # supports exactly one model counts 1 in the column of its group
+        pref = sc.get("prefix", "OUT")
+        ump = res.path("transcript_model_counts.tsv", prefix=pref)
+        if ump:
+            ung = {f: v for f, v in parse.counts_simple(ump).items() if not f.startswith("__")}
+            mp = res.path("transcript_model_grouped_counts.tsv", prefix=pref)
+            lp = res.path("transcript_model_grouped_counts_linear.tsv", prefix=pref)
+            tables = {}
+            if fmt in ("matrix", "both") and mp:
+                groups, mat = parse.counts_matrix(mp)
+                tables["matrix"] = {(f, g): v for f, vals in mat.items() for g, v in zip(groups or [], vals)}
+            elif fmt in ("matrix", "both") and sum(ung.values()) > 0:
+                ctx.violation("C09:matrix-table-missing", {"level": "transcript_model"}, case)
+            if fmt in ("linear", "both") and lp:
+                tables["linear"] = {}
+                for f, g, v in parse.counts_linear(lp):
+                    tables["linear"][(f, g)] = tables["linear"].get((f, g), 0.0) + v
+            if len(tables) == 2:
+                for key in set(tables["matrix"]) | set(tables["linear"]):
+                    a, b = tables["matrix"].get(key, 0.0), tables["linear"].get(key, 0.0)
+                    if abs(a - b) > 1e-9:
+                        ctx.violation("C09:matrix-and-linear-disagree:transcript_model",
+                                      {"cell": key, "matrix": a, "linear": b}, case)
+            mrp = res.path("transcript_model_reads.tsv", prefix=pref)
+            sole = defaultdict(float)
+            if mrp:
+                per_read = defaultdict(set)
+                for rid, tid in parse.model_reads(mrp):
+                    if tid not in ("*", "."):
+                        per_read[rid].add(tid)
+                for rid, tids in per_read.items():
+                    if len(tids) == 1:
+                        sole[(next(iter(tids)), group_of(rid))] += 1.0
+            for name, cells in tables.items():
+                rows_ = defaultdict(dict)
+                for (f, g), v in cells.items():
+                    rows_[f][g] = v
+                for f in set(rows_) | set(ung):
+                    tot = sum(rows_.get(f, {}).values())
+                    if abs(tot - ung.get(f, 0.0)) > 0.005 * max(1, len(rows_.get(f, {}))) + 1e-9:
+                        ctx.violation("C09:%s-groups-do-not-sum-to-ungrouped:transcript_model" % name,
+                                      {"feature": f, "sum": tot, "ungrouped": ung.get(f, 0.0),
+                                       "row": rows_.get(f, {})}, case)
+                if "--transcript_quantification" in sc["opts"] and not multi_locus_reads(records):
+                    for (f, g), v in sole.items():
+                        if ung.get(f, 0.0) > 0 and cells.get((f, g), 0.0) + 0.005 < v:
+                            ctx.violation("C09:%s-cell-below-the-reads-of-the-group:transcript_model" % name,
+                                          {"feature": f, "group": g, "table": cells.get((f, g), 0.0),
+                                           "reads_supporting_only_this_model": v}, case)
         ungroupable = sum(1 for k_ in records if group_of(k_[0]) == "NA")
         chroms = set(k_[1] for k_ in records)
         ctx.cls("mode=" + mode, "fmt=" + fmt)
